@@ -263,7 +263,8 @@ def main():
     # ------------------------------------------------------------------------------------------
     # C. the public command-stream generator
     def fixed_lists():
-        """deterministic operation lists kept because they exposed something"""
+        """deterministic operation lists kept because they exposed something (each was a defect of calc_blockdep that has
+        been repaired in /repo; a regression shows up as a block-job VIOLATION on the list)"""
         out = []
         # producer with 1-row blocks, consumer 3x1 SAME convolution with 2-row blocks (see design.d/C04.md)
         for acc in (Accelerator.Ethos_U55_128, Accelerator.Ethos_U55_64):
@@ -382,19 +383,9 @@ def main():
         r.update(extra or {})
         return r
 
-    def known_keys(i, msg):
-        acc, ops, tag = ownersC[i]
-        return c04_gen.classify_blockjobs(msg, c04_gen.fixed_blockdeps(archs[acc], ops))
-
     seen_kinds = set()
     reportedC = 0
     for i, kind, msg in specfailC:
-        keys = known_keys(i, msg) if kind == "blockjobs" else None
-        if keys:
-            for key in sorted(keys):
-                ck.count("C_known_" + key)
-                ck.violation(f"BLOCKDEP too large [{key}] ({ownersC[i][0].value}, {ownersC[i][2]}): {msg[:200]}", replayC(i), key=key)
-            continue
         if reportedC >= 6 or ((kind, msg[:30]) in seen_kinds):
             ck.count("C_spec_rejections_not_listed")
             continue
@@ -406,7 +397,7 @@ def main():
         else:
             ck.violation(f"emitted BLOCKDEP allows a read-after-write overlap between consecutive kernels ({acc.value}, {tag}): {msg[:200]}",
                          replayC(i))
-    if disagreeC and not [s for s in specfailC if not (s[1] == "blockjobs" and known_keys(s[0], s[2]))]:
+    if disagreeC and not specfailC:
         i = min(disagreeC, key=lambda j: len(reqsC[j]))
         ck.violation(f"decoded KERNEL_WAIT/DMA_WAIT/BLOCKDEP differ from the model on {len(disagreeC)} of {len(reqsC)} generated streams "
                      f"(e.g. {ownersC[i][2]}, {ownersC[i][0].value}): {outsC[i][:300]}",
@@ -419,11 +410,11 @@ def main():
     import pipe_common
 
     nD = 48 if not ck.thorough else 700
-    wantD = {"words": True, "extra": c04_gen.pipeline_extra}
+    wantD = {"words": True}
     outsD = pipe_common.run_corpus(ck, nD, want=wantD) if only in (None, "D") else []
     if only is None:
         # generated networks kept because they exposed something: (profile, seed, index)
-        #   mixed/0/308  int16 MINIMUM -> RESIZE_BILINEAR: tile-aliased explicit padding (known finding)
+        #   mixed/0/308  int16 MINIMUM -> RESIZE_BILINEAR: tile-aliased explicit padding (IFM shape must cover the padded window)
         for prof, sd, ix in [("mixed", 0, 308)]:
             outsD.append(pipe_common._worker((sd, ix, prof, wantD)))
     reqsD, ownersD = [], []
@@ -473,20 +464,12 @@ def main():
                 ck.count("D_spec_rejections_not_listed")
         if d.get("blockjobs", "0") != "0":
             msg = ans.split("blockjobs=", 1)[1][:3000]
-            fixed = (o.get("extra") or [])[si] if si < len(o.get("extra") or []) else {}
-            keys = c04_gen.classify_blockjobs(msg, fixed)
-            rep["blockdep_with_repairs"] = fixed
-            if keys:
-                for key in sorted(keys):
-                    ck.count("D_known_" + key)
-                    ck.violation(f"compiled network {o['idx']} ({o['profile']} {o.get('opts')}): BLOCKDEP too large [{key}]: {msg[:300]}", rep, key=key)
+            reportedD += 1
+            if reportedD <= 6:
+                ck.violation(f"compiled network {o['idx']} ({o['profile']} {o.get('opts')}): BLOCKDEP allows a read-after-write overlap: "
+                             + msg[:300], rep)
             else:
-                reportedD += 1
-                if reportedD <= 6:
-                    ck.violation(f"compiled network {o['idx']} ({o['profile']} {o.get('opts')}): BLOCKDEP allows a read-after-write overlap: "
-                                 + msg[:300], rep)
-                else:
-                    ck.count("D_spec_rejections_not_listed")
+                ck.count("D_spec_rejections_not_listed")
     if ansD:
         ck.sample({"D_network": ownersD[0][0].get("desc"), "opts": ownersD[0][0].get("opts"), "answer": ansD[0][:200]})
 
